@@ -149,4 +149,8 @@ def run_C08(tier, seed):
               '{0, +-w0, 2w0, beyond, random} in random speed units; distinct = distinct (constants, w, D)')
     v.sample(evs[0]); v.sample(evs[len(evs) // 2])
     v.assumptions = ['branch taken within 1e-10 (relative) of the dead-zone boundary is not judged; both laws are continuous there and the value is still checked']
+    # the same law as the SOLVER records it: motor current of every recorded instant of the shared campaign
+    from . import solver_drv
+    solver_drv.campaign_part(v, 'C08', tier, seed, 'recorded motor current at every recorded instant against Motor.tla evaluated with the recorded driving torque and duty cycle '
+                             '(SolverOps!CurrentFails); the motor torque itself is C02\'s DriveMotor clause')
     return finish(v, {'F18': _f18})
